@@ -183,6 +183,19 @@ var c09Slots = func() []*uint256.Int {
 	out := []*uint256.Int{h.U(0), h.U(1), h.U(5), h.U(7), h.U(255), h.U(256), new(uint256.Int).Lsh(h.U(1), 64)}
 	out = append(out, new(uint256.Int).SetBytes(crypto.Keccak256(common.LeftPadBytes([]byte{1}, 32), common.LeftPadBytes([]byte{2}, 32))))
 	out = append(out, new(uint256.Int).Not(h.U(0)))
+	// slots whose data area keccak256(slot) ends in 0xff, 0xfe, 0xfd and 0xffff (the walk over a multi-slot string then
+	// carries into the next byte, or two) and one that ends in 0x00
+	want := map[string]bool{"ff": true, "fe": true, "fd": true, "ffff": true, "00": true}
+	for i := uint64(300); len(want) > 0 && i < 400000; i++ {
+		k := crypto.Keccak256(common.LeftPadBytes(new(big.Int).SetUint64(i).Bytes(), 32))
+		for _, tag := range []string{fmt.Sprintf("%02x%02x", k[30], k[31]), fmt.Sprintf("%02x", k[31])} {
+			if want[tag] {
+				delete(want, tag)
+				out = append(out, h.U(i))
+				break
+			}
+		}
+	}
 	return out
 }()
 
